@@ -17,7 +17,7 @@ impl Monitor for C20 {
         vec![gen("histories", tier.pick(2_000, 1_000_000, 4)), gen("malformed", tier.pick(400, 200_000, 2))]
     }
     fn rule(&self) -> String {
-        "histories: a device runs a history of 4-12 transactions (MAC downlinks filling the pending answers to 0..15 bytes, confirmed downlinks, silent uplinks, rejected frames, Class C downlinks) from chosen counters (0, 0xFFFF, 0x10000, 2^32-2, None) and ADR counters (0, 63, 64, 95, 96); after EVERY step the session is serialised with serde_json, deserialised, re-serialised (must be identical text) and installed in a second device (nb: set_session in place, set_session on a device object that lived through a session with other keys, and fresh device; async: new_with_session) which then runs the rest of the history plus a tail of 3 uplinks and a batch of fresh/replayed/stale downlinks in lock-step with the original: uplink bytes, responses, delivered payloads and the serialised session after every step must be identical. malformed: structural mutations of a valid document (drop/duplicate/rename field, wrong type, short/long arrays, pending_len 0..255, numbers at the u8/u16/u32 limits +-1, nesting, truncation at every byte): from_str must fail or yield a session on which a fixed operation battery never unwinds. Class = (session-state class at snapshot, mutation class, verdict).".into()
+        "histories: a device runs a history of 4-12 transactions (MAC downlinks filling the pending answers to 0..15 bytes, confirmed downlinks, silent uplinks, rejected frames, Class C downlinks) from chosen counters (0, 0xFFFF, 0x10000, 2^32-2, None) and ADR counters (0, 63, 64, 95, 96); after EVERY step the session is serialised with serde_json, deserialised, re-serialised (must be identical text) and installed in a second device (nb: set_session in place, set_session on a device object that lived through a session with other keys, and fresh device; async: new_with_session) which then runs the rest of the history plus a tail of 3 uplinks and a batch of fresh/replayed/stale downlinks in lock-step with the original: uplink bytes, responses, delivered payloads and the serialised session after every step must be identical. malformed: structural mutations of a valid document (drop/duplicate/rename field, wrong type, short/long arrays, pending_len 0..255, numbers at the u8/u16/u32 limits +-1, nesting, truncation at every byte, well-typed fields in combinations no history produces): from_str must fail or yield a session on which a fixed operation battery never unwinds. Class = (session-state class at snapshot, mutation class, verdict).".into()
     }
     fn assumptions(&self) -> Vec<String> {
         vec![
@@ -478,6 +478,15 @@ fn mutate(doc: &str, kind: u64, rng: &mut Prng) -> (String, &'static str) {
             let cut = rng.below(s.len() as u64) as usize;
             (s[..cut].to_string(), "truncation")
         }
+        12 => {
+            // every field well-typed and plausible on its own; the combination is one no history of
+            // the stack produces (an owed ACK without any downlink, counters at their ends, ...)
+            v["uplink"]["confirmed"] = json!(rng.bool());
+            v["fcnt_down"] = if rng.bool() { json!(null) } else { json!(*rng.pick(&[0u32, 1, 0xFFFF, 0xFFFF_FFFF])) };
+            v["fcnt_up"] = json!(*rng.pick(&[0u32, 1, 0xFFFF, 0x1_0000, 0xFFFF_FFFE, 0xFFFF_FFFF]));
+            v["adr_ack_cnt"] = json!(*rng.pick(&[0u32, 63, 64, 96, 4_000_000_000]));
+            (v.to_string(), "cross-field")
+        }
         _ => {
             // element values out of u8 range
             v["nwkskey"] = json!([256, 1, 2, 3, 4, 5, 6, 7, 8, 9, 10, 11, 12, 13, 14, 15]);
@@ -502,7 +511,7 @@ fn malformed_case(front: Front, reg: Reg, idx: u64, rng: &mut Prng, col: &mut Co
     let doc = serde_json::to_string(&dev.session_json().unwrap()).unwrap();
     let per_case = col.tier.pick(120, 120, 12);
     for m in 0..per_case {
-        let kind = (idx + m) % 12;
+        let kind = (idx + m) % 13;
         let (text, class) = mutate(&doc, kind, rng);
         let parsed = trap(|| serde_json::from_str::<lorawan_device::mac::Session>(&text));
         match parsed {
